@@ -528,6 +528,14 @@ func Exec(p *Program, io *StageIO) (*StageResult, error) {
 		// use the path mrp pre-populated in _outs.
 		n := argOf(io, "n").Int()
 		sparse := int64(-1)
+		extDir := false
+		if n >= 100 && n < 200 {
+			// files/extlink is a symbolic link to a directory outside the
+			// pipestance (reference data); the string output names a file
+			// below it
+			n -= 100
+			extDir = true
+		}
 		if n >= 200 {
 			// a mapped producer whose forks leave complementary outputs
 			// null: even forks write no g, odd forks no f
@@ -558,6 +566,13 @@ func Exec(p *Program, io *StageIO) (*StageResult, error) {
 				}
 			}
 			outs[o.Name] = filewValue(p, io, o.T, n, io.FilesPath, o.Name, &pad)
+			if extDir && o.Name == "sp" && io.WriteFile != nil && io.Symlink != nil && io.OutsideDir != "" && io.FilesPath != "" {
+				ext := io.OutsideDir + "/refdata"
+				io.WriteFile(ext+"/ref.dat", FileContent(ext+"/ref.dat", 23))
+				io.WriteFile(ext+"/other.dat", FileContent(ext+"/other.dat", 31))
+				io.Symlink(ext, io.FilesPath+"/extlink")
+				outs[o.Name] = Str(io.FilesPath + "/extlink/ref.dat")
+			}
 		}
 		if io.WriteFile != nil && io.FilesPath != "" {
 			// files no output names
